@@ -41,6 +41,10 @@ MODEL_B = """<?xml version="1.0" encoding="UTF-8"?>
 <informationRequirement><requiredInput href="#_Day"/></informationRequirement>
 <literalExpression><text>[string(date(Day)), date(Day).weekday, string(date and time(Day + "T10:00:00@Europe/Warsaw") - date and time("2020-01-01T00:00:00Z")), date and time(Day + "T12:00:00@America/New_York").time offset, years and months duration(date("2000-02-29"), date(Day))]</text></literalExpression>
 </decision>
+<decision name="Zones" id="_Zones"><variable name="Zones"/>
+<informationRequirement><requiredInput href="#_Day"/></informationRequirement>
+<literalExpression><text>[date and time(Day + "T02:30:00@Europe/Warsaw") = date and time(Day + "T01:30:00Z"), date and time(Day + "T02:30:00@America/New_York") = date and time(Day + "T07:30:00Z"), date and time(Day + "T01:30:00@America/New_York") in [date and time(Day + "T00:00:00Z")..date and time(Day + "T23:00:00Z")], string(date and time(Day + "T02:30:00@Europe/Warsaw") - date and time(Day + "T02:30:00@Asia/Tokyo")), date and time(Day + "T02:30:00@Europe/Warsaw").time offset, date and time(Day + "T02:30:00@Australia/Lord_Howe").time offset, date and time(Day + "T12:00:00@Pacific/Apia") = date and time(Day + "T12:00:00@Pacific/Apia")]</text></literalExpression>
+</decision>
 <decision name="Iter" id="_Iter"><variable name="Iter"/>
 <informationRequirement><requiredInput href="#_Num"/></informationRequirement>
 <informationRequirement><requiredInput href="#_Txt"/></informationRequirement>
@@ -79,13 +83,14 @@ MODEL_B = """<?xml version="1.0" encoding="UTF-8"?>
 
 
 def build_workload(rng):
-    models, calls, services = [], [], [[0, "Svc"], [0, "Iter"], [0, "Deep"], [0, "RxPlain"], [0, "RxFlags"]]
+    models, calls, services = [], [], [[0, "Svc"], [0, "Iter"], [0, "Deep"], [0, "RxPlain"], [0, "RxFlags"], [0, "Zones"]]
     models.append(MODEL_B)
     txts = ["abc123", "hello", "x9y8z7", "żółć", "aeiou", "UPPER", "a1", "", "a.c", "A\nbC", "aa.b+"]
-    days = ["2021-03-27", "2020-02-29", "1999-12-31", "2021-10-31", "2024-07-15"]
+    # among them days on which a named zone skips or repeats an hour (the local times of `Zones` then do not exist or are ambiguous)
+    days = ["2021-03-27", "2020-02-29", "1999-12-31", "2021-10-31", "2024-07-15", "2021-03-28", "2021-03-14", "2021-11-07", "2011-12-30", "2021-10-03"]
     for k in range(14):
         inp = [["Txt", {"s": rng.choice(txts)}], ["Num", {"n": str(rng.randint(1, 10 ** 6)) + "." + str(rng.randint(0, 999))}], ["Day", {"s": rng.choice(days)}]]
-        for inv in ("Regex", "RxPlain", "RxFlags", "Numeric", "Temporal", "Iter", "Deep", "All", "Svc"):
+        for inv in ("Regex", "RxPlain", "RxFlags", "Numeric", "Temporal", "Zones", "Iter", "Deep", "All", "Svc"):
             calls.append([0, inv, inp])
     # generated graphs: nested decisions + BKMs + services + tables (read locks nest several levels deep)
     for k, shape in enumerate(["mixed", "service-and-direct", "bkm-chain"]):
@@ -146,7 +151,7 @@ def run(rep, tier, seed):
     reps = 40 if tier == "quick" else 1500
     tsan_reps = 4 if tier == "quick" else 40
     rep.rule = (
-        "%d repetitions (thread counts 2, 3, 4, 8, 16 in turn; 60-400 calls per thread) of seeded call permutations over 4 shared evaluators (regular-expression decisions incl. two that use the same patterns with and without flags / optional arguments, numeric, temporal-with-zones decisions, a decision made of for / some / every / filter / sort / function literal / context / named invocation / if / in / between / instance of, a decision that recurses 40-60 levels deep through a knowledge model and through a function literal, "
+        "%d repetitions (thread counts 2, 3, 4, 8, 16 in turn; 60-400 calls per thread) of seeded call permutations over 4 shared evaluators (regular-expression decisions incl. two that use the same patterns with and without flags / optional arguments, numeric, temporal-with-zones decisions incl. local times that a zone skips or repeats, a decision made of for / some / every / filter / sort / function literal / context / named invocation / if / in / between / instance of, a decision that recurses 40-60 levels deep through a knowledge model and through a function literal, "
         "a boxed context using a knowledge model, a decision service; generated graphs with nested decisions, BKM chains, tables and services) plus a rotating window of the repository's own example models (every invocable, three input contexts each), with seeded yields / spins / sleeps at the hook between lock "
         "acquisitions; then 6 hammer rounds per repetition (all threads call one invocable with 2-4 alternating inputs, identical inputs recurring, no delays); each repetition ends with 3 rendezvous rounds (K = thread count evaluations held inside the evaluator at once); %d repetitions on the ThreadSanitizer build. Distinct = order signature of "
         "the logical-clock event log; non-trivial = repetition in which calls of different threads overlapped." % (reps, tsan_reps)
